@@ -18,7 +18,8 @@ from mc import util
 ID = "C05"
 LEVEL = "model_checking"
 RULE = (
-    "all operation sequences over the alphabet up to the depth bound, executed on the real State; "
+    "all operation sequences over the alphabet up to the depth bounds, executed on the real State: (rdfs) every sequence replayed from scratch on a fresh State, "
+    "(dfs) deeper, incrementally with cloning and pruning on (canonical state, remaining depth); "
     "non-trivial = a visited state in which at least one particle is dead-or-removed AND at least "
     "one survives (identity can actually be confused); distinct = distinct canonical states"
 )
@@ -28,7 +29,7 @@ ASSUMPTIONS = [
     "dtype zoo limited to int/float/bool/datetime64[s]",
 ]
 
-FULL = ["a1", "a2", "ab", "a0", "kf", "km", "kl", "ks", "c", "sx", "si", "pl", "pd"]
+FULL = ["a1", "a2", "ab", "a0", "kf", "km", "kl", "ks", "c", "sx", "si", "pl", "pd", "al", "ix", "ad"]
 CORE = ["a1", "a2", "kf", "kl", "c"]
 WRITE = ["a1", "a2", "kf", "kl", "c", "w"]
 T0 = np.datetime64("2020-01-01T00:00:00", "s")
@@ -38,19 +39,17 @@ PVARS = ["weight", "rt"]
 
 def bounds(tier, seed):
     if tier == "quick":
-        return dict(full_depth=4, core_depth=8, write_depth=4)
-    return dict(full_depth=6, core_depth=10, write_depth=6)
+        return dict(replay_full_depth=4, replay_core_depth=7, pruned_full_depth=5, pruned_core_depth=9, write_depth=4)
+    return dict(replay_full_depth=5, replay_core_depth=9, pruned_full_depth=7, pruned_core_depth=11, write_depth=6)
 
 
 def cases(tier, seed):
     b = bounds(tier, seed)
     out = []
-    for alpha, name, depth in (
-        (FULL, "full", b["full_depth"]),
-        (CORE, "core", b["core_depth"]),
-    ):
+    for alpha, name in ((FULL, "full"), (CORE, "core")):
         for pre in itertools.product(alpha, repeat=2):
-            out.append(dict(mode="dfs", alphabet=name, prefix=list(pre), depth=depth))
+            out.append(dict(mode="rdfs", alphabet=name, prefix=list(pre), depth=b[f"replay_{name}_depth"]))
+            out.append(dict(mode="dfs", alphabet=name, prefix=list(pre), depth=b[f"pruned_{name}_depth"]))
     for pre in itertools.product(WRITE, repeat=2):
         out.append(dict(mode="wdfs", prefix=list(pre), depth=b["write_depth"]))
     return out
@@ -144,6 +143,13 @@ def apply_impl(st, op):
         st["weight"][pid] = st["weight"][pid] + 10.0
     elif op == "pd":
         st["weight"][0] = st["weight"][0] + 100.0
+    elif op == "al":  # assign an existing array of the declared dtype: the state must not alias it
+        st["Y"] = st["X"]
+    elif op == "ix":  # in-place update through a local reference, as the tracker does with Z
+        x = st["X"]
+        x += 0.5
+    elif op == "ad":  # append relying on the defaults after earlier appends gave explicit values
+        st.append(X=p + 0.75, Y=1.0, Z=2.0, tag=77, rt=T0 + 5)
     else:
         raise util.HarnessError(op)
 
@@ -203,6 +209,14 @@ class Ref:
             self.weight[self.inst[self.liv()[-1]]["pid"]] += 10.0
         elif op == "pd":
             self.weight[0] += 100.0
+        elif op == "al":
+            for d in self.inst:
+                d["Y"] = d["X"]
+        elif op == "ix":
+            for d in self.inst:
+                d["X"] += 0.5
+        elif op == "ad":
+            self.add(p + 0.75, 1.0, 2.0, 77, T0 + 5)
 
     def nontrivial(self):
         gone = self.npid - len(self.liv())
@@ -263,6 +277,59 @@ def run_history(hist, case_tag):
     return []
 
 
+def replay_dfs(case):
+    """Every operation sequence extending the prefix, each executed FROM SCRATCH on a fresh State (no cloning, so hidden
+    state and object identities are exactly those of a real run); the state after the last operation is compared."""
+    alpha = FULL if case["alphabet"] == "full" else CORE
+    depth = case["depth"]
+    stats = dict(nodes=0, ops=0, nontrivial=0)
+    viols, outcomes = [], set()
+    v = run_history(case["prefix"], case)
+    if v:
+        return util.result(evals=1, viol=v, states=1, transitions=len(case["prefix"]))
+
+    def visit(hist):
+        st, ref = new_state(), Ref()
+        for i, op in enumerate(hist):
+            if not enabled(st, op):
+                return None
+            try:
+                apply_impl(st, op)
+            except util.HarnessError:
+                raise
+            except Exception as e:
+                return [("exception", f"{op} raised {e!r} after {hist[:i]}")]
+            ref.apply(op)
+            stats["ops"] += 1
+        stats["nodes"] += 1
+        if ref.nontrivial():
+            stats["nontrivial"] += 1
+        if len(hist) == depth:
+            outcomes.add((len(ref.inst), ref.npid, len(ref.liv())))
+        return compare(st, ref)
+
+    def rec(hist):
+        for op in alpha:
+            h2 = hist + [op]
+            bad = visit(h2)
+            if bad is None:
+                continue
+            if bad:
+                if len(viols) < 10:
+                    for sig, msg in bad[:2]:
+                        viols.append(util.viol(sig, f"after {h2}: {msg}", dict(mode="hist", history=h2)))
+                continue
+            if len(h2) < depth:
+                rec(h2)
+
+    if len(case["prefix"]) < depth:
+        rec(list(case["prefix"]))
+    return util.result(evals=stats["nodes"] + 1, nontrivial=stats["nontrivial"], viol=viols, outcomes=[list(o) for o in outcomes],
+                       states=stats["nodes"] + 1, transitions=stats["ops"], traces=stats["nodes"] + 1,
+                       sample=dict(mode="replay", alphabet=case["alphabet"], prefix=case["prefix"], depth=depth, example_history=case["prefix"] + alpha[: max(0, depth - 2)]),
+                       extra=dict(histories_replayed_from_scratch=stats["nodes"]))
+
+
 def dfs(case):
     alpha = FULL if case["alphabet"] == "full" else CORE
     depth = case["depth"]
@@ -271,6 +338,9 @@ def dfs(case):
     seen: dict[int, int] = {}
     outcomes = set()
 
+    v = run_history(case["prefix"], case)
+    if v:
+        return util.result(evals=1, viol=v, states=1, transitions=len(case["prefix"]))
     st, ref = new_state(), Ref()
     hist = []
     for op in case["prefix"]:
@@ -279,10 +349,6 @@ def dfs(case):
         apply_impl(st, op)
         ref.apply(op)
         hist.append(op)
-    # the prefix itself is checked by the shards of shorter prefixes? no: check here too
-    v = run_history(hist, case)
-    if v:
-        return util.result(evals=1, viol=v, states=1, transitions=len(hist))
 
     def rec(st, ref, hist):
         rem = depth - len(hist)
@@ -439,6 +505,8 @@ def wdfs(case):
 def run_case(case):
     if case["mode"] == "dfs":
         return dfs(case)
+    if case["mode"] == "rdfs":
+        return replay_dfs(case)
     if case["mode"] == "wdfs":
         return wdfs(case)
     if case["mode"] == "hist":
